@@ -20,7 +20,7 @@ from .. import common as c
 from .. import links_util as lu
 
 PROP = "C02"
-FAMS = ["A", "B", "C", "D", "E"]
+FAMS = ["A", "B", "C", "D", "E", "F"]
 DEVS = [("Mono", "FinalIsExpected", "monomorphism instead of induced residue match (m04)"),
         ("NoOrder", "FinalIsExpected", "relative order check dropped (m05)"),
         ("NoLinktype", "FinalIsExpected", "edge labels ignored (m06)"),
@@ -31,7 +31,8 @@ DEVS = [("Mono", "FinalIsExpected", "monomorphism instead of induced residue mat
         ("KeepRemoved", "FinalIsExpected", "interactions of removed atoms written (m03)"),
         ("F13", "FinalIsExpected", "finding F13 (repaired): residue attributes missing on the first residue"),
         ("VerKey", "FinalIsExpected", "finding F17 (repaired): version numbers tested against removed node keys"),
-        ("DangEnd", "Export", "dangling interaction expected beyond the chain end")]
+        ("DangEnd", "Export", "dangling interaction expected beyond the chain end"),
+        ("NoAtomResname", "FinalIsExpected", "independent seed C02-2: residue name not compared at the atom level")]
 # finding F17 (removed-node-key-equals-version) is REPAIRED: behaviour that equals the DevVerKey deviation is a VIOLATION again; the match is
 # only mentioned in the report text so that a returning defect is recognised at once
 F17_NOTE = " [observed interactions equal Links.tla with deviation DevVerKey: repaired finding F17 is back]"
@@ -112,7 +113,7 @@ def prepare_family(ck, fam, res, tier, rng):
         raise c.MachineryError("family %s: TLC exported no case" % fam)
     ck.extra.setdefault("exported_cases", {})[fam] = len(raws)
     if tier == "quick":
-        per = {"A": 4, "B": 8, "C": 30, "D": 50, "E": 40}[fam]
+        per = {"A": 4, "B": 8, "C": 30, "D": 50, "E": 40, "F": 25}[fam]
         pick = _stratified(raws, per, rng)
     else:
         pick = list(range(len(raws)))
@@ -365,13 +366,14 @@ def _library_chunk(arg):
 def tlc_jobs(tier):
     jobs = []
     for fam in FAMS:
-        jobs.append(("export_" + fam, "MC_Links", "Lk_export_%s.cfg" % fam, {"A": 8, "B": 3, "C": 1, "D": 1, "E": 2}[fam], {}))
+        jobs.append(("export_" + fam, "MC_Links", "Lk_export_%s.cfg" % fam, {"A": 8, "B": 3, "C": 1, "D": 1, "E": 2, "F": 2}[fam], {}))
     if tier == "quick":
         jobs.append(("model", "MC_Links", "Lk_tiny.cfg", 4, {}))
     else:
         jobs.append(("model", "MC_Links", "Lk_small.cfg", 8, {}))
         jobs.append(("model4", "MC_Links", "Lk_small4.cfg", 3, {}))
     jobs.append(("modelE", "MC_Links", "Lk_small_E.cfg", 2, {}))
+    jobs.append(("modelF", "MC_Links", "Lk_small_F.cfg", 2, {}))
     jobs.append(("devfams", "MC_Links", "Lk_devfams.cfg", 1, {"coverage": True}))
     for name, inv, what in DEVS:
         jobs.append(("dev_" + name, "MC_Links", "Lk_dev_%s.cfg" % name, 1, {"check": False}))
@@ -384,9 +386,10 @@ def run(tier):
                "+ ++ - > >> < * **, names A, B, A|B, path / star / triangle patterns of 2-4 residues), B (35 force fields with extra attributes, "
                "replace, replace null, [edges], [non-edges], [patterns], two and three links overriding / different version, graphs on <= 3 residues "
                "and all-A graphs on 4), C (edge labels), D (residue labels), E (20 monomer .itp files with dangling interactions on chains of 1-5 "
-               "and mixed chains); a case is non-trivial if at least one link applies or an atom is removed. I->S: seeded random cases with 5-7 "
+               "and mixed chains), F (links that name the residue on a subset of the atoms of an order, residues A and C with identical atom names, "
+               "node keys any permutation of the residue ids); a case is non-trivial if at least one link applies or an atom is removed. I->S: seeded random cases with 5-7 "
                "residues, 3 block types, 3 links and force fields of the repository; distinct = record with at least one applied link")
-    ck.assumptions = ["domain: every link atom carries a residue name; no two definitions of one (atoms, version) at the same definition index; "
+    ck.assumptions = ["domain: every link names a residue on at least one atom; no two definitions of one (atoms, version) at the same definition index; "
                       "no link whose own edges/replacements change the outcome of its own vetoes (TLC checks these on every exported case and "
                       "skips recorded cases outside)",
                       "atoms are identified by (residue id, atom name); atom names are unique within a block in all generated inputs",
@@ -401,6 +404,7 @@ def run(tier):
     if "model4" in results:
         ck.model_must_hold(results["model4"], "FinalIsExpected on four residues")
     ck.model_must_hold(results["modelE"], "FinalIsExpected on dangling .itp links")
+    ck.model_must_hold(results["modelF"], "FinalIsExpected on links naming the residue on a subset of their atoms, permuted residue ids")
     ck.model_must_hold(results["devfams"], "sensitivity families without deviation / OrderSymmetric")
     cov = results["devfams"].coverage()
     for act in ("BeginLink", "TryAny", "EndLink", "WriteBack", "FindMissing"):
@@ -426,7 +430,7 @@ def run(tier):
         report_family(ck, fam, kept[fam][0], kept[fam][1], out[lo:hi])
     del out, allparts
     ck.stage("gen_params entry point")
-    gen_params_subsets(ck, kept, (("B", 60), ("C", 20), ("D", 20), ("E", 40)) if tier == "quick" else (("A", 1500), ("B", 1000), ("C", 252), ("D", 144), ("E", 680)), rng)
+    gen_params_subsets(ck, kept, (("B", 60), ("C", 20), ("D", 20), ("E", 40), ("F", 40)) if tier == "quick" else (("A", 1500), ("B", 1000), ("C", 252), ("D", 144), ("E", 680), ("F", 600)), rng)
     kept.clear()
     # 3. I->S
     ck.stage("I->S: random cases")
